@@ -5,6 +5,9 @@ PACK(msg) first and msg.data iff non-empty, nothing else, msg unmodified; (3) th
 terms equal the AOSP header (command word, arg0, arg1, LEN(data), MOD32(BYTESUM(data)), NOT32(command word)) in a
 format of six little-endian u32; (4) command table equals protocol.txt; (5) unpack uses the same format and returns
 fields 0-4 in order; (6) every construction site passes a known command; (7) message fields are immutable.
+Also: (1b) every call of the send primitive sits inside `with self._transport_lock` and the send wrapper sends on every normal path (LOCK-send);
+(8) the write loop is entered whenever the buffer is not empty, and no caller swallows the AdbTimeoutError by which it reports a half-written
+message (RET, RET-retry, RET-swallow: same instances as C15).
 """
 import ast
 import struct
